@@ -479,18 +479,22 @@ def check_model(R, xml, tags, states, P, x64=True, detail_base=None):
         if not problems:
             continue
         P.count("states_with_differences")
-        cf = _Counterfactuals(R, m, mx, st, dx, (dcf, dcs, dxf, dxs), x64, smap, integ, P)
+        tree_box = {}
+
+        def get_tree():
+            if "v" not in tree_box:
+                tree_box["v"] = _tree_values(xml, st) or False
+                P.count("tree_build_consulted_states" if tree_box["v"] else "tree_build_unavailable_states")
+            return tree_box["v"]
+        cf = _Counterfactuals(R, m, mx, st, dx, (dcf, dcs, dxf, dxs), x64, smap, integ, P, get_tree)
         causes = _known_causes(R, m, mx, st, dcf, dcs, dxf, dxs, cf)
         seen = set()
-        tree = None
         for name, det in problems:
             sig = name
             if isinstance(det, dict) and "mjx" in det and "tol" in det and not name.startswith(("contact", "efc")):
                 # reference-version skew triage (see ASSUMPTIONS): tree sides with MJX at the field's own tolerance AND
                 # differs from the wheel by more than it
-                if tree is None:
-                    tree = _tree_values(xml, st) or False
-                    P.count("tree_build_consulted_states" if tree else "tree_build_unavailable_states")
+                tree = get_tree()
                 verdict = _reference_skew(name, det, tree) if tree else None
                 if verdict is not None:
                     P.count("tree_build_decisions")
@@ -643,13 +647,15 @@ def _dense_qderiv(mj, m, d):
     return D
 
 
-def _velocity_update_numeric(mj, m, d, delta):
+def _velocity_update_numeric(mj, m, d, delta, skew=None, tree_qvel=None, P=None):
     """Next state of the Euler / implicitfast integrator recomputed in numpy from C's forward data `d`:
         qvel+ = qvel + h * (M - h*(D + delta))^-1 (qfrc_smooth + qfrc_constraint)
     implicitfast: D = C's qDeriv as used by mj_implicit (lower triangle on M's sparsity pattern, mirrored);
     Euler: D = -diag(dof_damping) when the C engine integrates joint damping implicitly (neither eulerdamp nor damper disabled),
     else 0. Returns an object with qpos/qvel/act/time, or None when the formula with delta = 0 does not reproduce the C
-    integrator itself to 1e-9 (the formula is only trusted after that validation)."""
+    integrator itself to 1e-9 (the formula is only trusted after that validation). `skew` (optional): a modelled difference
+    between the wheel's and the tree's D; it is added only when the tree build's next velocity `tree_qvel` differs from the
+    wheel's and the formula with `skew` reproduces it to 1e-7 - the counterfactual is then about the tree's engine."""
     import types
     d2 = mj.MjData(m)
     mj.mj_copyData(d2, m, d)
@@ -672,6 +678,15 @@ def _velocity_update_numeric(mj, m, d, delta):
         return np.array(d.qvel) + h * np.linalg.solve(M - h * (Dsym + dl), f)
     if _relerr(nxt(0.0), d2.qvel) > 1e-9:
         return None
+    if skew is not None and tree_qvel is not None and np.any(skew != 0) and _relerr(np.asarray(tree_qvel, float), d2.qvel) > 1e-9:
+        # known wheel-vs-tree skew in qDeriv (see _known_causes): use the TREE's update, reconstructed as the wheel's formula
+        # plus the skew term, but only if that reconstruction reproduces the tree build's own next velocity
+        if _relerr(nxt(skew), np.asarray(tree_qvel, float)) <= 1e-7:
+            delta = delta + skew
+            if P is not None:
+                P.count("counterfactual_on_tree_update_reconstructed_from_wheel_plus_validated_skew")
+        elif P is not None:
+            P.count("counterfactual_skew_term_not_validated_by_tree")
     v = nxt(delta)
     q = np.array(d.qpos)
     mj.mj_integratePos(m, q, v, h)
@@ -686,10 +701,12 @@ class _Counterfactuals:
          mjx_data(dx) -> dx    edit MJX's input data            mjx_model(mx) -> mx    edit MJX's model
        remaining(specs) -> set of _pkey of the differences that SURVIVE the counterfactual (None if it cannot be run)."""
 
-    def __init__(self, R, m, mx, st, dx, base, x64, smap, integ, P):
+    def __init__(self, R, m, mx, st, dx, base, x64, smap, integ, P, get_tree=None):
         self.R, self.m, self.mx, self.st, self.dx, self.base = R, m, mx, st, dx, base
         self.x64, self.smap, self.integ, self.P = x64, smap, integ, P
         self.cache = {}
+        self.get_tree = get_tree
+        self.skew_delta = None      # set by _known_causes: modelled wheel-vs-tree difference of qDeriv
 
     def remaining(self, named_specs):
         key = tuple(sorted(n for n, _ in named_specs))
@@ -720,7 +737,7 @@ class _Counterfactuals:
         integ = int(m.opt.integrator)
         I = mj.mjtIntegrator
 
-        def sim(hk, dl):
+        def sim(hk, dl, validating=False):
             f = mj.MjData(m2)
             mjxrepo.set_state_dict(m2, f, self.st)
             _staged_forward(mj, m2, f, hk)
@@ -729,7 +746,11 @@ class _Counterfactuals:
             if integ == int(I.mjINT_RK4):
                 _staged_rk4(mj, m2, s, hk)
             elif dl is not None:
-                s = _velocity_update_numeric(mj, m2, f, dl)
+                tq = None
+                if self.skew_delta is not None and not edits and not validating and self.get_tree is not None:
+                    tree = self.get_tree()
+                    tq = np.array(tree[1]["qvel"], float) if tree else None
+                s = _velocity_update_numeric(mj, m2, f, dl, skew=self.skew_delta, tree_qvel=tq, P=self.P)
             elif integ == int(I.mjINT_EULER):
                 mj.mj_Euler(m2, s)
             else:
@@ -743,7 +764,7 @@ class _Counterfactuals:
             rs = mj.MjData(m2)
             mjxrepo.set_state_dict(m2, rs, self.st)
             mj.mj_step(m2, rs)
-            f0, s0 = sim([], 0.0 if deltas else None)
+            f0, s0 = sim([], 0.0 if deltas else None, validating=True)
             if s0 is None or max(_relerr(f0.qacc, rf.qacc), _relerr(f0.sensordata, rf.sensordata),
                                  _relerr(f0.efc_force, rf.efc_force) if rf.nefc == f0.nefc else 1.0,
                                  _relerr(s0.qpos, rs.qpos), _relerr(s0.qvel, rs.qvel), _relerr(s0.act, rs.act)) > 1e-9:
@@ -990,7 +1011,7 @@ def _known_causes(R, m, mx, st, dcf, dcs, dxf, dxs, cf):
     if int(m.opt.integrator) == int(mj.mjtIntegrator.mjINT_IMPLICITFAST) and m.nu and not off(D.mjDSBL_ACTUATION):
         mom = np.zeros((m.nu, m.nv))
         mj.mju_sparse2dense(mom, dcf.actuator_moment, dcf.moment_rownnz, dcf.moment_rowadr, dcf.moment_colind)
-        d_muscle, d_clamp = np.zeros((m.nv, m.nv)), np.zeros((m.nv, m.nv))
+        d_muscle, d_clamp, d_skew = np.zeros((m.nv, m.nv)), np.zeros((m.nv, m.nv)), np.zeros((m.nv, m.nv))
         for i in range(m.nu):
             aadr = int(m.actuator_actadr[i])
             ca = float(dcf.act[aadr + int(m.actuator_actnum[i]) - 1]) if aadr >= 0 and int(m.actuator_dyntype[i]) != int(mj.mjtDyn.mjDYN_NONE) \
@@ -1000,6 +1021,12 @@ def _known_causes(R, m, mx, st, dcf, dcs, dxf, dxs, cf):
             clamped = bool(m.actuator_forcelimited[i]) and (force <= lo or force >= hi)
             affine = (float(m.actuator_biasprm[i, 2]) if int(m.actuator_biastype[i]) == int(mj.mjtBias.mjBIAS_AFFINE) else 0.0) + \
                 (float(m.actuator_gainprm[i, 2]) * ca if int(m.actuator_gaintype[i]) == int(mj.mjtGain.mjGAIN_AFFINE) else 0.0)
+            if not clamped and int(m.actuator_dyntype[i]) == int(mj.mjtDyn.mjDYN_NONE) and m.actuator_ctrllimited[i] \
+                    and not off(D.mjDSBL_CLAMPCTRL) and int(m.actuator_gaintype[i]) == int(mj.mjtGain.mjGAIN_AFFINE):
+                # version skew (not a finding): the 3.13.0 wheel uses the clamped ctrl in d(force)/d(velocity), the tree (and
+                # MJX) the raw ctrl; only used after the tree build itself has validated it (_velocity_update_numeric)
+                lo_c, hi_c = m.actuator_ctrlrange[i]
+                d_skew += float(m.actuator_gainprm[i, 2]) * (ca - float(np.clip(ca, lo_c, hi_c))) * np.outer(mom[i], mom[i])
             if clamped and affine != 0.0:
                 # C drops the whole actuator from qDeriv, MJX keeps its affine velocity terms
                 d_clamp += affine * np.outer(mom[i], mom[i])
@@ -1012,6 +1039,8 @@ def _known_causes(R, m, mx, st, dcf, dcs, dxf, dxs, cf):
                 if gv != 0.0:
                     # C has the muscle force-velocity slope in qDeriv, MJX has no muscle term at all
                     d_muscle -= gv * np.outer(mom[i], mom[i])
+        if np.any(d_skew != 0):
+            cf.skew_delta = d_skew
         if np.any(d_muscle != 0):
             out.append({
                 "sig": "implicitfast-derivative-omits-muscle-gain-velocity-term",
